@@ -446,9 +446,9 @@ def _set_order(ctx, reach):
                 # singleton guard: next(iter(s)) under len(s) == 1
                 if how == "iter(set)":
                     cfg = CFG(f.node)
-                    if any("len(" in ast.unparse(g[0]) and "== 1"
-                           in ast.unparse(g[0]) and g[1]
-                           for g in cfg.guards(n)):
+                    et = ast.unparse(e)
+                    if {f"1 == len({et})", f"len({et}) == 1"} & set(
+                            cfg.conditions(cfg.stmt_of(n))):
                         ctx.ok("C08b-set-order", f,
                                f"{ast.unparse(n)[:50]} on a singleton")
                         continue
@@ -531,6 +531,13 @@ def _order_free_body(body):
                 and isinstance(st.value, ast.Constant):
             continue
         if isinstance(st, ast.Pass):
+            continue
+        # per-element alias of a container slot:  s = d[k]
+        if isinstance(st, ast.Assign) and len(st.targets) == 1 and \
+                isinstance(st.targets[0], ast.Name) and isinstance(
+                    st.value, (ast.Subscript, ast.Name, ast.Attribute)) \
+                and not any(isinstance(x, ast.Call)
+                            for x in ast.walk(st.value)):
             continue
         return False
     return True
